@@ -24,8 +24,10 @@ annotations (both read from libcst's installed source on every run):
 R20.22 / R20.23 decide the resulting obligations on merge_sources by *model
 execution*: the body of merge_sources and the callbacks of the module-local
 visitor/transformer classes it instantiates are interpreted (a small
-interpreter over their ast, below; nothing of pytype or libcst is imported or
-run) on witness trees - libcst-shaped model nodes for a source module and for
+interpreter over their ast, rules/_util_c20.py; nothing of pytype or libcst is
+imported or run; helper functions, helper methods incl. @staticmethod and
+super() through module-local bases, class and module constants, loops with
+break/continue are followed) on witness trees - libcst-shaped model nodes for a source module and for
 the stub pytype would print for it - following libcst's traversal protocol
 (visit_X / children / leave_X, RemovalSentinel, read-only CSTVisitor).  The
 tree that arrives at `_merge_csts(pyi_tree=...)` is then inspected:
@@ -533,10 +535,8 @@ _LEAVE22 = """    if original_node.name.value not in self._class_names:
       return cst.RemovalSentinel.REMOVE
     return updated_node
 """
-_STEP23 = """    pyi_cst = pyi_cst.visit(
-        QuoteNestedClassesTransformer(stub_class_collector.class_names)
-    )
-"""
+_STEP23 = "        .visit(QuoteNestedClassesTransformer(stub_class_collector.class_names))\n"
+_CHAIN_END = _STEP23 + "    )\n"
 _COLLECT = """  def visit_ClassDef(self, node: cst.ClassDef) -> None:
     self.class_names.add(node.name.value)
 """
@@ -565,12 +565,11 @@ _LEAVE_CLS23 = """    bases = [
     ]
     return updated_node.with_changes(bases=bases)
 """
-_PYI_CHAIN = """    pyi_cst = (
-        cst.parse_module(pyi)
-        .visit(RemoveAnyNeverTransformer())
-        .visit(RemoveTrivialTypesTransformer())
-        .visit(RemoveUndefinedClassesTransformer(class_collector.class_names))
-    )
+_STUB_HEAD = """    pyi_cst = cst.parse_module(pyi)
+    stub_class_collector = _ClassNameCollector()
+    pyi_cst.visit(stub_class_collector)
+    pyi_cst = (
+        pyi_cst.visit(RemoveAnyNeverTransformer())
 """
 
 
@@ -662,9 +661,9 @@ VARIANTS = [
        "RemoveUndefinedClassesTransformer(pytd_utils.ClassNames(py))", "error"),
     # R20.23
     _v("nested-class-filter-skipped", "R20.23", _STEP23, ""),
-    _v("nested-class-filter-result-discarded", "R20.23",
-       "    pyi_cst = pyi_cst.visit(\n        QuoteNestedClassesTransformer(",
-       "    pyi_cst.visit(\n        QuoteNestedClassesTransformer("),
+    _v("nested-class-filter-result-discarded", "R20.23", _CHAIN_END,
+       "    )\n    pyi_cst.visit(\n"
+       "        QuoteNestedClassesTransformer(stub_class_collector.class_names))\n"),
     _v("annotation-depth-never-counted", "R20.23", _VISIT_ANN, ""),
     _v("only-one-level-of-nesting-recognised", "R20.23", _PRED,
        "    return (\n        isinstance(node, cst.Attribute)\n"
@@ -691,31 +690,19 @@ VARIANTS = [
        "    if self._annotation_depth and self._is_nested_class(original_node):\n"
        "      text = cst.Module([]).code_for_node(original_node)\n"
        "      return cst.SimpleString(value=repr(text))", "silent"),
-    {"name": "twin-all-stub-filters-in-one-chain", "rule": "R20.23", "expect": "silent",
-     "edits": [(MP, _STEP23, ""),
-               (MP, "    stub_class_collector = _ClassNameCollector()\n"
-                "    pyi_cst.visit(stub_class_collector)\n", ""),
-               (MP, _PYI_CHAIN,
-                "    stub_class_collector = _ClassNameCollector()\n"
+    # the read-only collector may sit in the chain itself: it hands the tree on
+    _v("twin-stub-class-names-collected-inside-the-chain", "R20.23", _STUB_HEAD,
+       "    stub_class_collector = _ClassNameCollector()\n"
+       "    pyi_cst = (\n        cst.parse_module(pyi)\n"
+       "        .visit(stub_class_collector)\n"
+       "        .visit(RemoveAnyNeverTransformer())\n", "silent"),
+    # ... but not behind the filter that drops the stub-only classes
+    {"name": "stub-class-names-collected-inside-the-chain-after-the-drop", "rule": "R20.23",
+     "expect": "fire",
+     "edits": [(MP, _STUB_HEAD, "    stub_class_collector = _ClassNameCollector()\n"
                 "    pyi_cst = (\n        cst.parse_module(pyi)\n"
-                "        .visit(RemoveAnyNeverTransformer())\n"
-                "        .visit(RemoveTrivialTypesTransformer())\n"
-                "        .visit(RemoveUndefinedClassesTransformer(class_collector.class_names))\n"
-                "        .visit(stub_class_collector)\n"
-                "        .visit(QuoteNestedClassesTransformer(stub_class_collector.class_names))\n"
-                "    )\n")]},
-    # the variants of rules/c20.py whose anchor is the stub chain, for the repaired text
-    _v("filtered-stub-discarded-after-repair", "R20.1", _PYI_CHAIN,
-       "    pyi_cst = cst.parse_module(pyi)\n"
-       "    pyi_cst.visit(RemoveAnyNeverTransformer()).visit(\n"
-       "        RemoveTrivialTypesTransformer()).visit(\n"
-       "        RemoveUndefinedClassesTransformer(class_collector.class_names))\n"),
-    _v("twin-stub-filtered-stepwise-after-repair", "R20.1", _PYI_CHAIN,
-       "    stub = cst.parse_module(pyi)\n"
-       "    stub = stub.visit(RemoveAnyNeverTransformer())\n"
-       "    stub = stub.visit(RemoveTrivialTypesTransformer())\n"
-       "    pyi_cst = stub.visit(\n"
-       "        RemoveUndefinedClassesTransformer(class_collector.class_names))\n", "silent"),
+                "        .visit(RemoveAnyNeverTransformer())\n"),
+               (MP, _STEP23, "        .visit(stub_class_collector)\n" + _STEP23)]},
     _v("nested-class-test-given-the-base-wrapper", "R20.3",
        "        if not self._is_nested_class(base.value)\n",
        "        if not self._is_nested_class(base)\n"),
@@ -730,4 +717,22 @@ VARIANTS = [
        "      return cst.SimpleString(repr(cst.Module([]).code_for_node(original_node)))",
        "    if self._annotation_depth and self._is_nested_class(original_node):\n"
        "      return cst.SimpleString(repr(original_node), original_node)"),
+    # the same defects seeded into the refactored text (benign/C20-r2, -r3)
+    {"name": "r2-undefined-classes-filter-left-out-of-the-tuple", "rule": "R20.22",
+     "patch": "benign/C20-r2/defect_undefined_classes_filter_left_out.diff", "expect": "fire"},
+    {"name": "r2-nested-class-names-from-the-source-helper-result", "rule": "R20.23",
+     "patch": "benign/C20-r2/defect_stub_names_collected_from_the_source.diff",
+     "expect": "fire"},
+    {"name": "r3-shared-membership-helper-inverted", "rule": "R20.22",
+     "patch": "benign/C20-r3/defect_known_class_test_inverted.diff", "expect": "fire"},
+    {"name": "r3-undefined-classes-kept-after-the-guard-clause", "rule": "R20.22",
+     "patch": "benign/C20-r3/defect_undefined_classes_kept.diff", "expect": "fire"},
+    {"name": "r3-static-quoting-helper-returns-the-node", "rule": "R20.23",
+     "patch": "benign/C20-r3/defect_quoted_returns_the_node.diff", "expect": "fire"},
+    {"name": "r3-loop-keeps-the-dotted-bases", "rule": "R20.23",
+     "patch": "benign/C20-r3/defect_dotted_bases_kept.diff", "expect": "fire"},
+    {"name": "r3-subclass-init-does-not-chain-to-the-shared-base", "rule": "R20.22",
+     "patch": "benign/C20-r3/defect_base_init_not_chained.diff", "expect": "error"},
+    {"name": "r3-module-constant-re-bound", "rule": "R20.22",
+     "patch": "benign/C20-r3/defect_trivial_names_constant_rebound.diff", "expect": "error"},
 ]
